@@ -11,7 +11,7 @@ ASSUMPTIONS = pm_prop.ASSUMPTIONS + [
 TRUSTED = pm_prop.TRUSTED + [
     'status model lean/PlumpyModel/Status/Model.lean (hand-written mirror of set_status / on_paused / on_playing), compared '
     'with the real status after every recorded hook call']
-ALPHABET = ['pause', 'play', 'resume', 'complete', 'callsoon ok']
+ALPHABET = ['pause', 'play', 'resume', 'complete', 'callsoon ok', 'callsoon raise']
 MONITORS = ['c05', 'c05-transparent', 'c05-status']
 STATUS_OPS = ['pause', 'play', 'setstatus x', 'setstatus -']
 STATUS_PROGRAMS = ['Sync2', 'Async2', 'Waiter', 'WaitAsync', 'Chain']
